@@ -10,7 +10,7 @@ import multiprocessing as mp
 
 import z3
 
-from .engine import Engine, Undecided, Outcome, Oblig, loop_ordinals
+from .engine import Engine, Undecided, Outcome, Oblig, loop_ordinals, exc_matches
 from .unit import Unit, NotGenerated, find_def, segment_sha
 from .values import *  # noqa: F401,F403
 
@@ -69,7 +69,7 @@ def generate(unit):
             if unit.post_hook:
                 unit.post_hook(eng, o, penv, line)
         elif o.kind == "raise":
-            if unit.raises is not None and o.exc not in unit.raises:
+            if unit.raises is not None and not exc_matches(o.exc, unit.raises):
                 eng.oblige("raises-subset", f"no-escape:{o.exc}", o.pc, z3.BoolVal(False), o.line or fn.lineno)
         elif o.kind == "continue" and unit.slice is not None:
             outs.append(Outcome("fall", o.env, o.pc))
